@@ -91,7 +91,7 @@ class C10(Check):
         super().__init__(tier, seed)
         self.sensitive = {}
         self.dist = {"lib": 0, "cli": 0, "excluded_files": {}, "outside_files_attributed": 0, "excluded_compiled": 0,
-                     "skip_variant_differs": 0, "extended_lists": 0, "lists_with_negation": 0, "negations_dropped": 0, "reincluded_files": 0, "impl_find_calls": 0, "cli_inproc_calls": 0, "exhaustive_block": 0, "malformed": 0}
+                     "skip_variant_differs": 0, "extended_lists": 0, "lists_with_negation": 0, "negations_dropped": 0, "reinclude_below_dstar": 0, "reincluded_files": 0, "impl_find_calls": 0, "cli_inproc_calls": 0, "exhaustive_block": 0, "malformed": 0}
 
     # ---- generation ----
     def gen_case(self, kind, wild=False):
@@ -153,6 +153,15 @@ class C10(Check):
                 out.append(["Glob", True, False, False, ["*." + rng.choice(["c", "h"])]])
         if rng.random() < 0.5:
             rng.shuffle(out)
+        deep = [f for f in inroot if len(f) >= 2]
+        if deep and rng.random() < 0.3:
+            # everything below a directory excluded (dir/**, which does not match the directory itself),
+            # then one file below it re-included, in this order: git and last-match-wins agree that the
+            # file is a member, and an enumeration that stops at "excluded" directories loses it
+            f = rng.choice(deep)
+            out.append(["Glob", False, rng.random() < 0.5, False, f[:-1] + ["**"]])
+            out.append(["Glob", True, True, False, f])
+            self.dist["reinclude_below_dstar"] += 1
         if not U.readings_agree(out, inroot):
             self.dist["negations_dropped"] += 1
             out = [p for p in out if not U.pat_negated(p)]
